@@ -54,4 +54,21 @@ CHECKS = {
               "by Trace_Arshal (C02's driver logs all three outputs)."),
         note="Flush policy is left open (only prefix / flushed-at-depth-0 are required); sampled schedules, not exhaustive.",
         design_ref="5 (C07), 4.3"),
+    "C12": dict(
+        technique="TLA+ Format specification (exact output bytes) with TLC-checked laws (valid result, same meaning, fixed point, unchanged on error) over all byte strings of bounded universes x 25 entry/option cases; exhaustive replay; TLC trace validation of generated/mutated texts x random options",
+        text=("Format.tla determines the bytes produced by Value.Format, Compact, Indent, Canonicalize and AppendFormat from the token table of the input and the effective options "
+              "(preset joined with caller options). TLC proves on every byte string of five universes (structure, members, strings/escapes incl. U+2028 and invalid UTF-8, numbers, nesting) "
+              "that the operation succeeds iff the text is valid under those options, that the result is valid, denotes the same value tree (JsonValue.tla; strings by code points, numbers "
+              "by normal form, member order only under ReorderRawObjects), is a fixed point, and that an error leaves the value unchanged; each (string, case) is replayed on the "
+              "library. 1.5k/40k generated and mutated texts with random option subsets are validated by TLC (Trace_Format)."),
+        note="Exact-bytes oracle (stronger than the property, never weaker); the Multiline defaults apply only when Multiline is in the coder's creation options, as implemented (see Format.tla!Effective); long-number canonical digits come from the strconv projection.",
+        design_ref="5 (C12), 4.4"),
+    "C13": dict(
+        technique="TLC-checked canonical-form laws on Format.tla's Canonicalize (no whitespace, UTF-16 member order, minimal strings, same meaning); exhaustive replay; TLC validation of (text, re-spelling) pairs requiring identical canonical bytes",
+        text=("For Canonicalize with default options TLC proves on the bounded universes that the output has no whitespace outside strings, members sorted by the UTF-16 code units of the "
+              "unescaped names at every depth, minimally spelled strings and the same meaning, and every string is replayed on Value.Canonicalize. The driver pairs valid I-JSON texts with "
+              "random re-spellings (member permutation, whitespace, \\uXXXX escapes incl. surrogate pairs, exponent/fraction re-spelling); TLC recomputes both canonical forms from the "
+              "specification, compares them with the library's output and requires them to be equal."),
+        note="ECMA-262 layout, -0, ordering and string minimality are the spec's; the nearest float64 and its shortest digits for literals with > 15 significant digits come from the strconv projection (trusted).",
+        design_ref="5 (C13), 4.4"),
 }
